@@ -17,6 +17,7 @@ case = (kind, ...):
   (3, N, n, probes)   parallelize(range(N), n) with many slices; only the probed slices go to Coq,
                       the oracle looks at all of them
 """
+import decimal
 import json
 import math
 import os
@@ -48,7 +49,13 @@ RULE = ('pipelines source + ops observed through getNumPartitions/glom().collect
         'task of partition i (before the first element, after the first, at the end; i in and out of range) below or above '
         'zipWithUniqueId / a logging mapPartitionsWithIndex stage, before zipWithIndex / partitionBy / coalesce / '
         'repartition (250 / 3000); contents read through Context.runJob so that the last stage is the outermost one; the '
-        'indices logged on every attempt are compared with the model (run_task/run_job).  non-trivial = more than one partition on either side of some op, or a non-None '
+        'indices logged on every attempt are compared with the model (run_task/run_job).  Equal-but-distinguishable '
+        'keys: datasets with at least two of 1 / 1.0 / True / Decimal(1.0), 0 / 0.0 / -0.0 / False / Decimal(0.00), 2 / 2.0 / '
+        'Decimal(2.00) ... under partition functions len(type(k).__name__), len(repr(k)), len(str(k)) and the default one, '
+        'also repeated and after swap / keyBy / flatMap (200 / 2500).  Partition subsets: zipWithUniqueId / logging '
+        'mapPartitionsWithIndex / tag stages (optionally after coalesce / repartition / partitionBy / zipWithIndex) '
+        'evaluated by ONE Context.runJob(rdd, func, partitions=[...]) on [n-1], [1,3], [2,0], reversed, random '
+        'sub-permutations, [] (200 / 2500), compared per partition with the full job.  non-trivial = more than one partition on either side of some op, or a non-None '
         'hash key; distinct by canonical JSON of the case')
 ASSUMPTIONS = [
     '64-bit CPython: sys.maxsize = 2^63-1, sys.hash_info.modulus = 2^61-1 (asserted at import)',
@@ -71,7 +78,35 @@ FUNCS = {
     4: lambda k: k * k + 1,
     5: lambda k: 0,
     6: len,
+    # functions that DISTINGUISH keys which compare (and hash) equal: 1 / 1.0 / True / Decimal('1.0') ...
+    7: lambda k: len(type(k).__name__),
+    8: lambda k: len(repr(k)),
+    9: lambda k: len(str(k)),
 }
+DEC = '$dec'
+
+
+def thaw(o):
+    """Cases carry a decimal.Decimal as the tagged tuple ('$dec', str(d))."""
+    if isinstance(o, tuple):
+        if len(o) == 2 and o[0] == DEC and isinstance(o[1], str):
+            return decimal.Decimal(o[1])
+        return tuple(thaw(x) for x in o)
+    if isinstance(o, list):
+        return [thaw(x) for x in o]
+    return o
+
+
+def freeze(o):
+    if isinstance(o, decimal.Decimal):
+        return (DEC, str(o))
+    if isinstance(o, tuple):
+        return tuple(freeze(x) for x in o)
+    if isinstance(o, list):
+        return [freeze(x) for x in o]
+    return o
+
+
 SEEDS_FIXED = ['1', '2', '4242', '123456789']
 
 
@@ -79,10 +114,10 @@ SEEDS_FIXED = ['1', '2', '4242', '123456789']
 
 def _source(ctx, src):
     if src[0] == 0:
-        return ctx.parallelize(list(src[1]), src[2])
+        return ctx.parallelize(thaw(list(src[1])), src[2])
     if src[0] == 1:
         # noinspection PyProtectedMember
-        return ctx._parallelize_partitions([list(p) for p in src[1]])  # pylint: disable=protected-access
+        return ctx._parallelize_partitions([thaw(list(p)) for p in src[1]])  # pylint: disable=protected-access
     return ctx.parallelize(range(src[1]), src[2])
 
 
@@ -191,7 +226,7 @@ def _contents(r):
 
 
 def _observe(r):
-    return (r.getNumPartitions(), r.glom().collect(),
+    return (r.getNumPartitions(), freeze(r.glom().collect()),
             r.mapPartitionsWithIndex(lambda i, it: [i]).collect())
 
 
@@ -208,6 +243,20 @@ def _summary(N, n):
     return Context().parallelize(range(N), n).mapPartitions(_summ).collect()
 
 
+def _subset_job(case):
+    """The pipeline, then ONE job on the chosen partitions: Context.runJob(rdd, func, partitions=[...])."""
+    ap = Applier()
+    ctx = Context()
+    r = _source(ctx, case[1])
+    for op in case[2]:
+        r = ap.apply(r, op)
+    parts = r.partitions()
+    chosen = [parts[i] for i in case[3]]
+    del ap.log[:]
+    out = ctx.runJob(r, lambda tc, it: (tc.partition_id, list(it)), partitions=chosen)
+    return ([(pid, freeze(content)) for pid, content in out], list(ap.log))
+
+
 def impl(case):
     try:
         if case[0] in (0, 4):
@@ -217,9 +266,11 @@ def impl(case):
                 r = ap.apply(r, op)
             if case[0] == 0:
                 return _observe(r)
-            num, parts = r.getNumPartitions(), _contents(r)
+            num, parts = r.getNumPartitions(), freeze(_contents(r))
             log = list(ap.log)
             return (num, parts, r.mapPartitionsWithIndex(lambda i, it: [i]).collect(), log)
+        if case[0] == 5:
+            return _subset_job(case)
         if case[0] == 1:
             return _summary(case[1], case[2])
         if case[0] == 2:
@@ -240,7 +291,7 @@ def _flat(ps):
 
 def _same(a, b):
     """Equality that distinguishes 1 / 1.0 / True and 0.0 / -0.0 (canonical JSON form)."""
-    return canon(a) == canon(b)
+    return canon(freeze(a)) == canon(freeze(b))
 
 
 def _grouping_exists(before, after, q):
@@ -346,6 +397,8 @@ def _norm_key(k):
         return ('t',) + tuple(_norm_key(x) for x in k)
     if isinstance(k, bool):
         return ('n', int(k))
+    if isinstance(k, decimal.Decimal) and k == int(k):
+        return ('n', int(k))
     if isinstance(k, float) and math.isfinite(k) and k == int(k):
         return ('n', int(k))
     if isinstance(k, int):
@@ -404,7 +457,7 @@ def _final_layout_oracle(case, result):
         return None
     n = ops[last][1]
     f = FUNCS[ops[last][2]] or rdd_mod._hash  # pylint: disable=protected-access
-    parts = result[1]
+    parts = thaw(result[1])
     if len(parts) != n:
         return ('partitionBy:partition-count', f'{len(parts)} partitions after partitionBy({n})')
     for j, p in enumerate(parts):
@@ -503,10 +556,53 @@ def _pipeline_oracle(case, result):
     return None
 
 
+def _subset_oracle(case, result):
+    """A job on a subset / reordering of the partitions gives, for each chosen partition, what the full job gives
+    for it: ids k*n+i and indices are those of the partition's OWN index i, not of its position in the job's list."""
+    _, src, ops, sel = case
+    full_case = (0, src, ops)
+    o = _pipeline_oracle(full_case, impl(full_case))
+    if o:
+        return o
+    if isinstance(result, Err):
+        return ('runJob-subset:raises-' + result.name, f'ops {ops!r}, partitions {sel!r}')
+    ap = Applier()
+    try:
+        r = _source(Context(), src)
+        for op in ops:
+            r = ap.apply(r, op)
+        full = freeze(_contents(r))
+    except Exception:  # pylint: disable=broad-except
+        return None
+    sel = list(sel) or list(range(len(full)))
+    codes = [op[0] for op in ops]
+    last = max((i for i, c in enumerate(codes) if c in MATERIALISING), default=-1)
+    seg = codes[last + 1:]
+    site = 'zipWithUniqueId:id-not-k*n+i' if 3 in seg else 'mapPartitionsWithIndex:indices' if (4 in seg or 12 in seg) \
+        else 'runJob-subset:contents-differ'
+    got, log = result
+    if len(got) != len(sel):
+        return ('runJob-subset:result-count', f'{len(got)} results for partitions {sel!r}')
+    for i, (pid, content) in zip(sel, got):
+        if pid != i % len(full):
+            return ('runJob-subset:task-partition-id', f'the task of partition {i} (job on {sel!r}) has partition_id {pid}')
+        if not _same(content, full[i]):
+            return (site + ':partition-subset', f'job on partitions {sel!r} of {len(full)}: partition {i} gives '
+                    f'{content!r:.200}, the full job gives {full[i]!r:.200}; ops {ops!r}')
+    if seg.count(12) == 1:
+        want = [i % len(full) for i in sel]
+        if log != want:
+            return ('mapPartitionsWithIndex:indices:partition-subset',
+                    f'job on partitions {sel!r}: the stage function was called with indices {log!r}')
+    return None
+
+
 def oracle(case, result):
     """The statement of C07 executed on the implementation alone (pipelines are re-run segment by segment)."""
     if case[0] in (0, 4):
         return _pipeline_oracle(case, result)
+    if case[0] == 5:
+        return _subset_oracle(case, result)
     if case[0] == 1:
         if isinstance(result, Err):
             return ('parallelize:raises-' + result.name, f'range({case[1]}), n={case[2]}')
@@ -532,6 +628,8 @@ def oracle(case, result):
 def nontrivial(case, result):
     if isinstance(result, Err):
         return False
+    if case[0] == 5:
+        return len(result[0]) >= 1
     if case[0] in (0, 4):
         return result[0] > 1 or (case[1][0] != 1 and (case[1][2] or 0) > 1) or (case[1][0] == 1 and len(case[1][1]) > 1)
     if case[0] in (1, 3):
@@ -542,11 +640,31 @@ def nontrivial(case, result):
 OPN = ['coalesce', 'repartition', 'partitionBy', 'zipWithUniqueId', 'tagIndex']
 
 
+def _has_equal_keys(case):
+    src = case[1]
+    if src[0] == 2:
+        return False
+    elems = src[1] if src[0] == 0 else _flat(src[1])
+    seen = {}
+    for e in elems:
+        if isinstance(e, tuple) and len(e) == 2:
+            try:
+                k = thaw(e[0])
+                seen.setdefault(k, set()).add(repr(k))
+            except TypeError:
+                return False
+    return any(len(v) > 1 for v in seen.values())
+
+
 def kind(case):
+    if case[0] == 5:
+        return 'partition-subset-job'
     if case[0] in (0, 4):
         codes = [op[0] for op in case[2]]
         if 11 in codes:
             return 'transient-fault'
+        if 2 in codes and _has_equal_keys(case):
+            return 'partitionBy-equal-keys'
         if codes.count(2) >= 2:
             return 'partitionBy-sequence'
         if not codes:
@@ -796,6 +914,101 @@ def gen_fault_case(rng):
     return (4, src, ops)
 
 
+EQ_POOLS = [
+    [1, 1.0, True, (DEC, '1'), (DEC, '1.0'), (DEC, '1.00')],
+    [0, 0.0, False, -0.0, (DEC, '0'), (DEC, '0.00')],
+    [2, 2.0, (DEC, '2'), (DEC, '2.00')],
+    [10, 10.0, (DEC, '10'), (DEC, '10.0')],
+    [-3, -3.0, (DEC, '-3'), (DEC, '-3.000')],
+]
+
+
+def _repr_key_ok(k):
+    if isinstance(k, tuple):
+        return len(k) == 2 and k[0] == DEC
+    return k is None or isinstance(k, (bool, int)) or (isinstance(k, float) and k == int(k) and abs(k) < 1e15)
+
+
+def _eq_elems_ok(elems):
+    return all(isinstance(e, tuple) and len(e) == 2 and e[0] != DEC and _repr_key_ok(e[0]) for e in elems)
+
+
+def gen_equal_keys(rng):
+    """Keys that compare and hash equal but are different objects (1 / 1.0 / True / Decimal('1.0'), 0.0 / -0.0 ...),
+    at least two of them in the dataset; partition functions that tell them apart (type name, repr, str)."""
+    pools = rng.sample(EQ_POOLS, rng.choice([1, 2, 2, 3]))
+    keys = []
+    for pool in pools:
+        keys += rng.sample(pool, rng.randint(2, min(4, len(pool))))
+    keys += rng.sample([None, 7, 123456, 5.0, -1, 33.0], rng.randint(0, 2))
+    m = rng.randint(len(keys), len(keys) + 4)
+    ks = keys + [rng.choice(keys) for _ in range(m - len(keys))]
+    rng.shuffle(ks)
+    swapv = rng.random() < 0.5
+    elems = [(k, rng.choice(keys) if swapv else i) for i, k in enumerate(ks)]
+    src = (0, list(elems), rng.choice([None, 2, 3])) if rng.random() < 0.5 else (1, split_random(rng, list(elems), rng.randint(1, 4)))
+    n = rng.choice([2, 3, 3, 4, 5])
+    f = rng.choice([7, 7, 8, 8, 9, 9, 0, 0, 5])
+    ops = [(2, n, f)]
+    for _ in range(rng.choice([0, 0, 1, 1, 2])):
+        t = rng.choice([(5, 0), (5, 0), (7, 0), (6, 0), (9,), (8,)])
+        new = _shadow(t, elems)
+        if not _eq_elems_ok(new):
+            t, new = (9,), elems
+        ops.append(t)
+        elems = new
+        c = rng.random()
+        ops.append((2, n if c < 0.7 else rng.choice([2, 3, 4]), f if c < 0.85 else rng.choice([7, 8, 9, 0])))
+    return (0, src, ops)
+
+
+def gen_subset_case(rng):
+    """zipWithUniqueId / mapPartitionsWithIndex / zipWithIndex evaluated by a job on some of the partitions."""
+    m = rng.randint(0, 14)
+    pairs = rng.random() < 0.3
+    elems = [(rng.randint(0, 5), 100 + i) for i in range(m)] if pairs else [100 + i for i in range(m)]
+    k = rng.choice([2, 3, 4, 4, 5, 6])
+    src = (0, elems, k) if rng.random() < 0.5 else (1, split_random(rng, elems, k))
+    n = k
+    prefix = []
+    c = rng.random()
+    if c < 0.12:
+        t = rng.randint(1, 4)
+        prefix, n = [(0, t)], min(t, k)
+    elif c < 0.24:
+        t = rng.randint(1, 6)
+        prefix, n = [(1, t)], t
+    elif c < 0.36 and pairs:
+        t = rng.choice([2, 3, 4, 5])
+        prefix, n = [(2, t, rng.choice([0, 1, 3]))], t
+    elif c < 0.42:
+        prefix, n = [(3,), (10,)] if rng.random() < 0.5 else [(10,)], 1
+    seg = [(3,)] if rng.random() < 0.75 else []
+    if rng.random() < 0.6:
+        seg.append((12,))
+    if rng.random() < 0.3:
+        seg.append(rng.choice([(4,), (5, 3), (6, 1)]))
+    if not seg:
+        seg = [(12,)]
+    rng.shuffle(seg)
+    c = rng.random()
+    if c < 0.15:
+        sel = [n - 1]
+    elif c < 0.3:
+        sel = [i for i in (1, 3) if i < n] or [0]
+    elif c < 0.45:
+        sel = [i for i in (2, 0) if i < n] or [n - 1]
+    elif c < 0.55:
+        sel = list(range(n))[::-1]
+    elif c < 0.62:
+        sel = []
+    elif c < 0.7:
+        sel = list(range(n))
+    else:
+        sel = rng.sample(range(n), rng.randint(1, n))
+    return (5, src, prefix + seg, sel)
+
+
 def generate(rng, tier):
     quick = tier == 'quick'
     cases = []
@@ -849,6 +1062,22 @@ def generate(rng, tier):
     cases.append((4, (0, [10, 11, 12, 13, 14], 3), [(12,), (11, 0, 1)]))
     for _ in range(250 if quick else 3000):
         cases.append(gen_fault_case(rng))
+    # 3d. keys that are equal but distinguishable, partition functions that distinguish them
+    eq = [(1, 'a'), (1.0, 'b'), (True, 'c'), ((DEC, '1.00'), 'd'), (0.0, 'e'), (-0.0, 'f'), ((DEC, '2'), 'g'), ((DEC, '2.00'), 'h')]
+    for f in (7, 8, 9, 0):
+        cases.append((0, (0, list(eq), 2), [(2, 3, f)]))
+        cases.append((0, (0, list(eq), 2), [(2, 3, f), (9,), (2, 3, f)]))
+    cases.append((0, (0, [(1, 1.0), (1.0, True), (True, 1), (0, -0.0), (0.0, False)], 2), [(2, 4, 7), (5, 0), (2, 4, 7)]))
+    for _ in range(200 if quick else 2500):
+        cases.append(gen_equal_keys(rng))
+    # 3e. one job on a subset / a reordering of the partitions
+    cases.append((5, (0, [10, 11, 12, 13, 14, 15, 16], 4), [(3,)], [1, 3]))
+    cases.append((5, (0, [10, 11, 12, 13, 14, 15, 16], 4), [(3,), (12,)], [2, 0]))
+    cases.append((5, (0, [10, 11, 12, 13, 14, 15, 16], 4), [(12,), (3,)], [3]))
+    cases.append((5, (0, [10, 11, 12, 13, 14, 15, 16], 4), [(4,)], [3, 2, 1, 0]))
+    cases.append((5, (0, [10, 11, 12, 13, 14, 15, 16], 4), [(3,), (10,), (12,)], [0]))
+    for _ in range(200 if quick else 2500):
+        cases.append(gen_subset_case(rng))
     # zero-partition datasets and non-pair elements
     cases.append((0, (1, []), [(0, 2)]))
     cases.append((0, (1, []), [(1, 2)]))
@@ -890,6 +1119,14 @@ def generate(rng, tier):
 
 
 def shrink_candidates(case):
+    if case[0] == 5:
+        sel = list(case[3])
+        for i in range(len(sel)):
+            if len(sel) > 1:
+                yield (5, case[1], case[2], sel[:i] + sel[i + 1:])
+        for i in range(len(case[2])):
+            yield (5, case[1], case[2][:i] + case[2][i + 1:], sel)
+        return
     if case[0] in (0, 4):
         for c in _shrink_pipeline(case):
             yield (case[0],) + tuple(c[1:])
